@@ -45,9 +45,16 @@ DEFECTS = {
                               ('$ echo @[C03_LATER]@', None)], 'DefSymbols'),
     'wrong symbol type': ([('def string C03_S = @[C03_LM]@', None), ('file f.txt = @[C03_LM]@', None),
                            ('stdout C03_LM', ['assert']), ('def path C03_P = -rel C03_STR x', None),
-                           ('def text-transformer C03_T = filter C03_STR', None)], 'DefSymbols'),
+                           ('def text-transformer C03_T = filter C03_STR', None),
+                           # a path hidden at second position / second level behind string symbols, where a pure string is required
+                           ('exit-code == @[C03_S2]@', ['assert']), ('exit-code == @[C03_S3]@', ['assert']),
+                           ('def integer-matcher C03_IM = == @[C03_S2]@\nfile f.txt = "ab" -transformed-by filter line-num C03_IM', None)],
+                          'DefSymbols'),
     'illegal relativity via symbol': ([('file @[C03_HP]@/f.txt = x', None), ('file -rel C03_HP f.txt = x', None),
-                                       ('dir @[C03_HP]@/d', None)], 'DefSymbols'),
+                                       ('dir @[C03_HP]@/d', None),
+                                       # ... reached indirectly: string symbols whose later / deeper reference is the home-relative path
+                                       ('dir @[C03_S2]@/d', None), ('file @[C03_S2]@/f.txt = x', None), ('dir @[C03_S3]@/d', None)],
+                                      'DefSymbols'),
     'missing home file': ([('file f.txt = -contents-of -rel-home missing.txt', None), ('copy -rel-home missing.txt', None),
                            ('def text-source C03_TS = -contents-of -rel-home missing.txt\nfile g.txt = @[C03_TS]@', None),
                            ('file f.txt = -contents-of -rel-act-home missing.txt', None), ('copy {ABS}/missing.txt', None),
@@ -76,7 +83,10 @@ def build_case(markers, insert, act_line=None, conf_lines=(), later_in=None):
     body = {}
     for p in PHASES:
         body[p] = ['$ touch %s/%s-1' % (markers, p), '$ touch %s/%s-2' % (markers, p)]
-    prereq = ['def line-matcher C03_LM = line-num == 1', 'def path C03_HP = -rel-home x', 'def string C03_STR = str']
+    prereq = ['def line-matcher C03_LM = line-num == 1', 'def path C03_HP = -rel-home x', 'def string C03_STR = str',
+              # a string symbol that itself has references, and one composed of it and a home-relative path (indirect defects)
+              'def string C03_A = @[C03_STR]@', 'def string C03_S2 = @[C03_A]@@[C03_HP]@', 'def string C03_S3 = @[C03_S2]@',
+              'def program C03_PROG = % true']
     if insert is not None:
         p, pos, text = insert
         lst = body[p]
@@ -109,7 +119,9 @@ def gen_cases(ctx, markers):
                         later = rng.choice(PHASES[PHASES.index(p):])
                     cases.append((cls, stage, {'phase': p, 'position': ['first', 'middle', 'last'][pos], 'instruction': text},
                                   build_case(markers, (p, pos, text), later_in=later)))
-    for act in ('"unterminated', "'unterminated arg", 'prog "unterminated arg'):
+    for act in ('"unterminated', "'unterminated arg", 'prog "unterminated arg',
+                # a superfluous source line after a complete program (command-line actor)
+                '% true\nstray text', '% true\n% true', '@ C03_PROG\nstray', '% true\n    -stdin x\nstray'):
         cases.append(('act-phase syntax', 'DefActParse', {'act': act}, build_case(markers, None, act_line=act)))
     for act, later in (('% echo @[C03_UNDEF]@', None), ('% echo @[C03_LATER]@', 'before-assert'), ('% echo @[C03_LATER]@', 'assert'),
                        ('% echo @[C03_LATER]@', 'cleanup'), ('% echo @[C03_LM]@', None), ('@[C03_UNDEF]@ arg', None),
